@@ -15,7 +15,9 @@
 package yamlpc
 
 import (
+	"fmt"
 	"io"
+	"reflect"
 
 	"github.com/go-openapi/runtime"
 	"gopkg.in/yaml.v3"
@@ -24,6 +26,11 @@ import (
 // YAMLConsumer creates a consumer for yaml data
 func YAMLConsumer() runtime.Consumer {
 	return runtime.ConsumerFunc(func(r io.Reader, v interface{}) error {
+		// yaml.v3 panics when asked to decode into something that is not a non-nil pointer (or a map)
+		if rv := reflect.ValueOf(v); !rv.IsValid() || (rv.Kind() != reflect.Map && (rv.Kind() != reflect.Ptr || rv.IsNil())) {
+			return fmt.Errorf("yaml consumer: destination must be a non-nil pointer, got %T", v)
+		}
+
 		dec := yaml.NewDecoder(r)
 		return dec.Decode(v)
 	})
